@@ -19,11 +19,10 @@ ACTIONS = ["Locate", "CheckPerm", "Parse", "Validate", "Decide", "Merge", "Apply
 CLAUSES = ["Loud", "Spurious", "Conf", "Validate", "PermWarn", "Stable", "HandOver", "DenyExact", "CleanExact",
            "Switches", "Report"]
 # the complete pipeline model over a product of all three files (Init of RmConf.tla)
-FULL = {"quick": ('YV = {"none", "one", "str"}', 'PV = {"none", "one", "rx1", "rxstr"}', 'LV = {"none", "one"}'),
-        "thorough": ('YV = {"none", "null", "two", "str"}', 'PV = {"none", "one", "rx2", "rxnull", "rxextra"}',
-                     'LV = {"none", "two", "trail"}')}
+FULL = {"quick": ('YV = {"none", "one"}', 'PV = {"none", "rx1"}', 'LV = {"none", "one"}'),
+        "thorough": ('YV = {"none", "null", "two"}', 'PV = {"none", "one", "rx2", "rxextra"}', 'LV = {"none", "two"}')}
 # families of worlds emitted by RmConfMC: (name, cap on replayed worlds)
-FAMILIES = {"quick": [("prec", 1300), ("red", 900), ("con", 1300), ("leg", 1300)],
+FAMILIES = {"quick": [("prec", 1000), ("red", 700), ("con", 1100), ("leg", 1100)],
             "thorough": [("prec", 10 ** 7), ("red", 10 ** 7), ("con", 10 ** 7), ("leg", 10 ** 7)]}
 SIM = {"quick": (300, 300), "thorough": (6000, 6000)}          # (behaviours, cap)
 # the code-transcribed extraction: TLC must refute these invariants (family, invariant)
@@ -213,7 +212,7 @@ REQUIRED = (["expected:ok", "expected:error", "validate:True", "validate:False",
 NSELF = 9
 
 
-def selftests(traces):
+def selftests(traces, whys):
     """Binding self-test (R5): copies of recorded runs with ONE observation corrupted; the trace specification
     must reject each with the named clause."""
     want, out = {}, []
@@ -229,7 +228,7 @@ def selftests(traces):
 
     for t in traces:
         e, w = t["events"][0], t["w"]
-        if e["k"] == "error":
+        if e["k"] == "error" and whys.get(t["id"], "").startswith(("red:", "con:")):
             add("error-swallowed", t, "Loud", lambda ev: ev.update(k="ok", vk="none" if w["validate"] else "-"))
         if e["k"] == "ok" and e["eff"]["ran"]:
             if e["eff"]["lines"]["p1"] == "removed" and e["eff"]["lines"]["neutral"] == "kept":
@@ -311,7 +310,7 @@ def run(prop, tier):
     if not stats.get("collect") or not stats.get("lines") or not stats.get("validate"):
         raise lib.MachineryError("vacuity: the real collect() / cleaner / --validate path never ran (%s)" % stats)
     t1 = time.time()
-    corrupted, want, lacking_self = selftests(traces)
+    corrupted, want, lacking_self = selftests(traces, dict((c["id"], c["why"]) for c in cases))
     val = lib.validate_traces("RmConfTrace", "RmConfTrace.cfg", traces + corrupted, jobs=4)
     print("timing: validation %.1fs (%d events, %d JVMs)" % (time.time() - t1, val["events"], val["jvms"]))
     if val["events"] != len(traces) + len(corrupted):
